@@ -4,7 +4,7 @@ Require Import ExtrOcamlBasic.
 Extraction Language OCaml.
 Extraction "../ocaml/c16/model.ml" rq_new rq_step sq_new sq_step N.of_nat N.to_nat
   sortN vec_new vec_step svec_new svec_step
-  str_new str_step sstr_new sstr_step sstr_of_str
+  str_new str_step sstr_new sstr_step sbytes
   sm_new sm_step smap_new smap_step
   fm_step fmap_new fmap_step
   ro_step so_step.
